@@ -355,7 +355,11 @@ def check_body(program, rep):
     cnt = {'filter': 0, 'store': 0, 'inst': 0, 'submap': 0, 'layer': 0, 'valueerror': 0,
            'skip': 0}
 
+    arith_key = []
+
     def flag(rule, node, why):
+        if rule == 'body' and arith_key:
+            return      # every later fact is about a key that is not decided
         bad.setdefault(rule, (node, why))
 
     rules_iter = 'self.rules'
@@ -471,6 +475,19 @@ def check_body(program, rep):
             k = s.target.text[len(mp) + 1:-1]
             if k in key_alts:
                 key = k         # the same key, written the other way
+            if k != key and f'{pt}.relpath({path}, ' not in k \
+                    and f'{pt}.relpath(' in k and '+' in k:
+                # the key is assembled from a relative DIRECTORY path and a
+                # piece of the entry's path (string arithmetic on paths):
+                # whether that equals relpath(entry, root) for every tree is
+                # an argument about os.path the rule does not carry
+                rep.inconclusive('C16.body', site, k[:160],
+                                 'the key is assembled by string arithmetic '
+                                 'from the relative path of a directory '
+                                 'instead of relpath(entry, root): not '
+                                 'decided by this rule')
+                arith_key.append(k)
+                continue
             if k != key:
                 flag('body', s.node, f'the entry is stored under {k}; the '
                      f'key for this path must be {key} (path relative to the '
